@@ -4,6 +4,8 @@ import os
 import numpy as np
 from hypothesis import strategies as st
 
+from mv import hperm
+
 from mv import gen_geom, geom, mf, ref_match
 from mv.quiet import silenced
 from mv.runner import EnumPart, HypPart, Violation
@@ -39,12 +41,12 @@ def xf_case(draw):
         elif sk == "tiny":
             v = [draw(st.floats(-1e-6, 1e-6)) for _ in range(3)]
         elif sk == "lattice":
-            v = (np.array([draw(st.integers(-2, 2)) for _ in range(3)]) @ cell).tolist()
+            v = (np.array([draw(hperm.integers(-2, 2)) for _ in range(3)]) @ cell).tolist()
         else:
-            j = draw(st.integers(0, N - 1))
+            j = draw(hperm.integers(0, N - 1))
             v = -np.array(base["spos"][j])
             if sk == "atom-to-face":
-                ax = draw(st.integers(0, 2))
+                ax = draw(hperm.integers(0, 2))
                 f = geom.frac(cell, v)
                 keep = [draw(st.floats(0, 1)) for _ in range(3)]
                 f = np.array([f[k] if k == ax else keep[k] for k in range(3)])
@@ -52,10 +54,10 @@ def xf_case(draw):
             v = v.tolist()
         xf["v"] = v
     elif kind in ("permute", "permute-in-place"):
-        xf["perm"] = list(draw(st.permutations(range(N))))
+        xf["perm"] = list(draw(hperm.permutations(range(N))))
     elif kind == "rotate-crystal":
         # the whole crystal (cell vectors and atoms) rotated: same lattice parameters, another orientation
-        R = geom.axis_rotations()[draw(st.integers(1, 23))] if draw(st.booleans()) else np.asarray(draw(gen_geom.random_rotation()))
+        R = geom.axis_rotations()[draw(hperm.integers(1, 23))] if draw(st.booleans()) else np.asarray(draw(gen_geom.random_rotation()))
         c2 = cell @ np.asarray(R).T
         if np.abs(c2 - np.diag(np.diag(c2))).max() < 1e-12 and np.diag(c2).min() < 0:
             # a diagonal cell matrix with a negative entry (box along -y) is not a supported way to write an orthorhombic
@@ -74,9 +76,9 @@ def xf_case(draw):
         xf["hints"] = h
         xf["form"] = form
     elif kind == "seeds":
-        xf["seeds"] = [draw(st.integers(0, 2 ** 31 - 1)), draw(st.integers(0, 2 ** 31 - 1))]
+        xf["seeds"] = [draw(hperm.integers(0, 2 ** 31 - 1)), draw(hperm.integers(0, 2 ** 31 - 1))]
     else:
-        r = [draw(st.integers(1, 3)) for _ in range(3)]
+        r = [draw(hperm.integers(1, 3)) for _ in range(3)]
         while N * r[0] * r[1] * r[2] > 300 and max(r) > 1:
             r[int(np.argmax(r))] -= 1
         xf["repl"] = r
